@@ -551,7 +551,7 @@ def gen_record(tape, n_refs, max_lseq, max_ops, tag="", max_bytes=400, allow_unp
         else:
             refid, pos = -1, -1
     budget -= 4 * len(cigar)
-    if cigar and query_length(cigar) > 0:
+    if cigar:
         # SEQ present: its length must equal the query length of the CIGAR; or SEQ absent ('*')
         l_seq = 0 if tape.boolean(tag + "seq.absent", 1, 10) else query_length(cigar)
     else:
@@ -583,7 +583,7 @@ def gen_record(tape, n_refs, max_lseq, max_ops, tag="", max_bytes=400, allow_unp
             "qual": qual, "tags": tags, "next_refid": nrefid, "next_pos": npos, "tlen": tlen, "pad": pad}
 
 
-def gen_file(tape, max_records, max_refs=4, max_lseq=40, max_ops=12, tag="", allow_unplaced=True):
+def gen_file(tape, max_records, max_refs=4, max_lseq=40, max_ops=12, tag="", allow_unplaced=True, rec_more=(4, 5)):
     """-> (header, records); reference lengths are chosen afterwards so that every alignment fits"""
     names = []
     while len(names) < max_refs and tape.more(tag + "refs.more", 3, 4):
@@ -599,7 +599,7 @@ def gen_file(tape, max_records, max_refs=4, max_lseq=40, max_ops=12, tag="", all
     if not names and not allow_unplaced:
         names.append("c")
     records = []
-    while len(records) < max_records and tape.more(tag + "records.more", 4, 5):
+    while len(records) < max_records and tape.more(tag + "records.more", rec_more[0], rec_more[1]):
         records.append(gen_record(tape, len(names), max_lseq, max_ops, tag + "r.", allow_unplaced=allow_unplaced))
     refs = []
     for i, nm in enumerate(names):
